@@ -15,7 +15,9 @@ RULE = ('BFS over pre-reset update() histories of the real online monitor (discr
         'in EVERY reached state reset() is applied to the real object and a family of post-reset input sequences (all sequences of length <= 2 '
         'over the event alphabet plus constant probes longer than the largest bound; dense: fixed probe signals in two chunkings) is fed; every '
         'post-reset output and sampling_violation_counter value must equal what a freshly parsed (and pastified) monitor returns for the same inputs; '
-        'the initial state is included (reset() before the first update); a (state, probe) pair is one checked obligation')
+        'the initial state is included (reset() before the first update); a (state, probe) pair is one checked obligation; '
+        'faulty layer: pre-reset histories over an alphabet that contains samples outside the domain of sqrt/ln/log/division, so that they contain update() calls '
+        'the monitor rejects half-way through its walk - reset() after such a history must still give the behaviour of a fresh monitor')
 ASSUMPTIONS = ['post-reset behaviour is compared on a bounded family of input sequences, not on all futures',
                'pre-reset time-stamps have gaps of 3 periods so that the violation counter is non-zero before reset()']
 
@@ -44,6 +46,44 @@ class ResetModel(c02.DtOnlineModel):
             o = impl.outcome(impl.dt_update, obj, 100 + i, dict(zip(self.vs, e)))
             outs.append((explore.snapshot(o), obj.sampling_violation_counter))
         return outs
+
+
+class FaultyResetModel(ResetModel):
+    """pre-reset histories that contain update() calls the monitor REJECTS (a sample outside the domain of sqrt / ln / log / division):
+    such a call may leave the operators visited before the failing node stepped and the counters untouched.  Nothing is pruned: the state
+    after a rejected call is a state like any other, and reset() must lead from it to the behaviour of a fresh monitor."""
+
+    def __init__(self, f, **kw):
+        ResetModel.__init__(self, f, (FAULT_X, FAULT_Y), **kw)
+        self.failed = set()
+
+    def check(self, hist, out, obj):
+        if out[0] != 'ok' or hist[:-1] in self.failed:
+            self.failed.add(hist)
+        return None
+
+    def probes(self):
+        E = [e for e in self.events if e[-1] == FAULT_Y[-1]]      # post-reset inputs stay inside the domain
+        K = F.max_bound(self.f) + self.delay + 2
+        return [(a, b) for a in E for b in E] + [tuple([e] * K) for e in E]
+
+
+FAULT_X = (-1.0, 2.0)
+FAULT_Y = (-1.0, 0.0, 4.0)      # -1: outside sqrt, ln, log; 0: outside ln, log and division; 4: inside all
+
+
+def fault_cases(tier):
+    px, X, Y = F.PX, F.X, F.Y
+    c0 = F.C0
+    sq, ln, lg = ('sqrt', Y), ('ln', Y), ('log', Y, ('const', 2.0))
+    out = []
+    for st in (('once', (0, 2), X), ('prev', X), ('historically', None, X), ('once', None, X), ('once', (1, 3), X), ('historically', (0, 5), X)):
+        for part in (sq, ln, lg, ('/', F.C1, Y)):
+            out.append(('pred', '>=', ('+', st, part), c0))       # the stateful operand is stepped before the failing one
+            out.append(('pred', '>=', ('+', part, st), c0))       # ... and after it
+    out += [('since', None, px, ('pred', '>=', sq, F.C1)), ('since', (1, 2), ('pred', '>=', ln, c0), px), ('and', ('rise', px), ('pred', '>=', sq, F.C1)),
+            ('or', ('prev', ('pred', '>=', sq, F.C1)), ('once', (0, 1), px)), ('once', (0, 2), ('pred', '>=', ('+', X, sq), c0))]
+    return out[::3] if tier == 'quick' else out
 
 
 def dt_cases(tier):
@@ -85,13 +125,19 @@ def shards(tier):
     cc = ct_cases(tier)
     for i in range(0, len(cc), 2):
         out.append({'ct': [(F.to_json(f), p) for f, p in cc[i:i + 2]]})
+    fc = fault_cases(tier)
+    for i in range(0, len(fc), 2):
+        out.append({'faulty': [F.to_json(f) for f in fc[i:i + 2]]})
     return out
 
 
-def dt_explore(res, mod, f, pastify, subs, top, tier):
+def dt_explore(res, mod, f, pastify, subs, top, tier, faulty=False):
     quick = tier == 'quick'
     delay = int(refsem.horizon(f)) if pastify else 0
-    m = ResetModel(f, (F.V3, F.V2), text=top, pastify=pastify, delay=delay, subspecs=subs, offline=False)
+    if faulty:
+        m = FaultyResetModel(f, offline=False)
+    else:
+        m = ResetModel(f, (F.V3, F.V2), text=top, pastify=pastify, delay=delay, subspecs=subs, offline=False)
     probes = m.probes()
     fresh_out = {}
     for q in probes:
@@ -110,6 +156,8 @@ def dt_explore(res, mod, f, pastify, subs, top, tier):
             r = impl.outcome(obj.reset)
             case = {'kind': 'dt', 'formula': fj, 'spec': m.text, 'vars': m.vs, 'pastify': pastify, 'subspecs': list(subs),
                     'history': [list(e) for e in hist], 'probe': [list(e) for e in q]}
+            if faulty:
+                case['faulty'] = True
             if r[0] != 'ok':
                 res.violation(mod, case, 'reset() after %d updates raised %s' % (len(hist), r[1]))
                 res.outcomes['reset raised'] += 1
@@ -136,11 +184,13 @@ def dt_explore(res, mod, f, pastify, subs, top, tier):
                 return
             if hist:
                 res.nontrivial += 1
+            if faulty and hist in m.failed:
+                res.flags['obligations_after_a_rejected_update'] += 1
             res.outcomes['as fresh'] += 1
 
-    st = explore.bfs(m, 5 if quick else 7, 400 if quick else 20000, 'none', None, on_state, max_states=60 if quick else 250)
+    st = explore.bfs(m, (4 if quick else 5) if faulty else (5 if quick else 7), 400 if quick else 20000, 'none', None, on_state, max_states=60 if quick else 250)
     # long pre-reset histories (behaviour that depends on the number of updates, e.g. buffers compacted in blocks)
-    long_hist = F.long_traces(len(m.vs), 40, F.V3 if len(m.vs) == 1 else F.V2)
+    long_hist = [] if faulty else F.long_traces(len(m.vs), 40, F.V3 if len(m.vs) == 1 else F.V2)
     for hist in long_hist[::(60 if quick else 12)]:
         obj = m.fresh()
         ok = True
@@ -250,6 +300,10 @@ def run_shard(shard, tier, res):
         f = F.from_json(fj)
         m, st = dt_explore(res, mod, f, pastify, tuple(subs), top, tier)
         res.sample({'spec': m.text, 'subspecs': list(subs), 'pastify': pastify, 'pre_reset_states': st.states, 'probes': len(m.probes())}, 1)
+    for fj in shard.get('faulty', []):
+        f = F.from_json(fj)
+        m, st = dt_explore(res, mod, f, False, (), None, tier, faulty=True)
+        res.sample({'spec': m.text, 'pre_reset_states': st.states, 'of_which_after_a_rejected_update': len([h for h in m.failed]), 'probes': len(m.probes())}, 1)
     for fj, pastify in shard.get('ct', []):
         f = F.from_json(fj)
         st = ct_explore(res, mod, f, pastify, tier)
@@ -260,8 +314,11 @@ def replay(case):
     f = F.from_json(case['formula'])
     if case['kind'] == 'dt':
         delay = int(refsem.horizon(f)) if case['pastify'] else 0
-        m = ResetModel(f, (F.V3, F.V2), text=case['spec'], variables=case['vars'], pastify=case['pastify'], delay=delay,
-                       subspecs=tuple(case.get('subspecs', ())), offline=False)
+        if case.get('faulty'):
+            m = FaultyResetModel(f, offline=False)
+        else:
+            m = ResetModel(f, (F.V3, F.V2), text=case['spec'], variables=case['vars'], pastify=case['pastify'], delay=delay,
+                           subspecs=tuple(case.get('subspecs', ())), offline=False)
         q = tuple(tuple(e) for e in case['probe'])
         want = m.run_probe(m.fresh(), q)
         obj = m.fresh()
@@ -300,4 +357,6 @@ def finalize(agg, outcomes, flags, tier):
     from ..runner import Broken
     if agg['nontrivial'] < 1000:
         raise Broken('vacuous: only %d (state, probe) obligations after a non-empty history' % agg['nontrivial'])
+    if flags.get('obligations_after_a_rejected_update', 0) < 100:
+        raise Broken('vacuous: only %d obligations after a history with a rejected update()' % flags.get('obligations_after_a_rejected_update', 0))
     return {'obligations_state_x_probe': agg['evaluations']}
